@@ -154,8 +154,7 @@ def edge_target_unique(fn, src, tgt):
     return len(ps) == 1 and ps[0] == src
 
 
-def guards_dominating(fn, bb):
-    """all (switch_bb, label, target) edges whose target dominates bb (edge-sensitive guards)"""
+def _edge_guards(fn, bb):
     res = []
     idom = fn.dom()
     x = bb
@@ -168,6 +167,66 @@ def guards_dominating(fn, bb):
             if p in fn.reach and lab.startswith("sw:") and edge_target_unique(fn, p, t):
                 res.append((p, lab[3:], t))
     return res
+
+
+def _flag_value_blocks(fn, local, depth=3):
+    """{True: [blocks], False: [blocks]} where a bool local is assigned a constant (directly or by copying / negating another such
+    flag); None when it has any other definition"""
+    out = {True: [], False: []}
+    if _call_defs(fn).get(local):
+        return None
+    defs = _assign_defs(fn).get(local, [])
+    if not defs:
+        return None
+    for (b, st) in defs:
+        rv = st["rv"]
+        if rv["k"] == "use" and rv["op"]["k"] == "const" and rv["op"].get("v") in ("true", "false"):
+            out[rv["op"]["v"] == "true"].append(b)
+        elif depth > 0 and rv["k"] == "use" and rv["op"]["k"] in ("copy", "move") and not rv["op"]["pl"]["p"]:
+            sub = _flag_value_blocks(fn, rv["op"]["pl"]["l"], depth - 1)
+            if sub is None:
+                return None
+            out[True] += sub[True]
+            out[False] += sub[False]
+        elif depth > 0 and rv["k"] == "unop" and rv["op"] == "Not" and rv["o"]["k"] in ("copy", "move") and not rv["o"]["pl"]["p"]:
+            sub = _flag_value_blocks(fn, rv["o"]["pl"]["l"], depth - 1)
+            if sub is None:
+                return None
+            out[True] += sub[False]
+            out[False] += sub[True]
+        else:
+            return None
+    return out
+
+
+def guards_dominating(fn, bb, through_flags=True, _depth=2):
+    """all (switch_bb, label, target) edges whose target dominates bb (edge-sensitive guards).
+    With through_flags, a guard that tests a constant-valued flag (`matches!(..)`, `let ok = a && b;`, the result of an inlined
+    predicate) also contributes the guards common to all places where the flag gets the value required on that edge."""
+    res = _edge_guards(fn, bb)
+    if not through_flags or _depth <= 0:
+        return res
+    extra = []
+    for (sw, lab, tgt) in res:
+        t = fn.blocks[sw]["term"]
+        d = t["discr"]
+        if d.get("ty") != "bool" or d["k"] not in ("copy", "move") or d["pl"]["p"]:
+            continue
+        vb = _flag_value_blocks(fn, d["pl"]["l"])
+        if vb is None:
+            continue
+        want = (lab != "0")
+        blocks = vb[want]
+        if not blocks:
+            continue
+        common = None
+        for b in blocks:
+            gs = set(guards_dominating(fn, b, True, _depth - 1))
+            common = gs if common is None else (common & gs)
+        for g in sorted(common or ()):
+            if g not in res and g not in extra:
+                extra.append(g)
+    return res + extra
 
 
 def bool_edge_polarity(fn, sw_bb, label):
